@@ -23,7 +23,7 @@ Fixpoint norec (g : G) : bool :=
   end
 with norec_it (i : IT) : bool :=
   match i with
-  | IRep a _ _ | IOrNot a | IRepCfg a _ _ => norec a
+  | IRep a _ _ | IOrNot a | IRepCfg a _ _ _ => norec a
   | ISep a s _ _ _ _ => norec a && norec s
   | IEnum j | IMap _ j | IMapWith _ j => norec_it j
   end
@@ -182,7 +182,7 @@ Qed.
 Lemma it_snext_mono : forall i ctx its p r x its' r', norec_it i = true -> envok ctx -> p <= length toks ->
   it_snext toks spn run i ctx its p r = Some (x, its', r') -> step_ok p r x r'.
 Proof.
-  induction i as [a lo hi|a sep lo hi lead trail|j IHj|f j IHj|f j IHj|a|a lo hi];
+  induction i as [a lo hi|a sep lo hi lead trail|j IHj|f j IHj|f j IHj|a|a lo hi ck];
     intros ctx its p r x its' r' Hn He Hp H; cbn [it_snext] in H; cbn [norec_it] in Hn.
   - destruct its; try discriminate.
     destruct (rep_snext run a lo hi ctx n p r) as [[[x0 c'] r0]|] eqn:E; [|discriminate].
